@@ -388,6 +388,37 @@ def _vec_index(ctx, a, ty, c):
     raise Unsupported("index on %r" % (v,))
 
 
+@summary(r"^(std::ops::|core::ops::)?Range::<(u\d+|usize)>::is_empty$")
+def _range_is_empty(ctx, a, ty, c):
+    r = load(ctx, a[0])
+    lo, hi = ctx.force(r.fields[0]), ctx.force(r.fields[1])
+    return Bool(z3.UGE(lo.e, hi.e))
+
+
+@summary(r"^<Vec<.*> as Index<(std::ops::|core::ops::)?Range<usize>>>::index$", first=True)
+def _vec_index_range(ctx, a, ty, c):
+    v = _unwrap_rc(ctx, a[0])
+    r = a[1]
+    lo, hi = ctx.force(r.fields[0]).e, ctx.force(r.fields[1]).e
+    if v.kind != "opsvec":
+        raise Unsupported("range index on %r" % (v,))
+    ok_ = z3.And(z3.ULE(lo, hi), z3.ULE(hi, v.len))
+    if ctx.branch([ok_, z3.Not(ok_)]) == 1:
+        raise PathEnd("panic", "range index out of bounds")
+    return Ref(Cell(Obj("opslice", "[Rc<dyn Opcode>]", base=v, lo=lo, hi=hi), "slice"), ())
+
+
+@summary(r"^core::slice::<impl \[.*\]>::first$", first=True)
+def _slice_first(ctx, a, ty, c):
+    v = load(ctx, a[0])
+    if isinstance(v, Obj) and v.kind == "opslice":
+        nonempty = z3.ULT(v.lo, v.hi)
+        if ctx.branch([nonempty, z3.Not(nonempty)]) == 0:
+            return some(ty, Ref(Cell(Obj("op", "Rc<dyn Opcode>", tag=z3.Select(v.base.tags, v.lo), at=v.lo), "op"), ()))
+        return none(ty)
+    return NotImplemented
+
+
 @summary(r"^<Rc<Vec<.*>> as Deref>::deref$", first=True)
 def _rcvec_deref(ctx, a, ty, c):
     v = _unwrap_rc(ctx, a[0])
